@@ -165,3 +165,95 @@ func TestVxC05Discover(t *testing.T) {
 			}
 		}})
 }
+
+// ---- C05: partition-key indexes of a PREPARED response that do not fit its bind columns -------------
+
+type vxC05PKCase struct {
+	Proto int   `json:"proto"` // 4..5
+	NCols int   `json:"ncols"` // bind columns the PREPARED response declares
+	NVals int   `json:"nvals"` // values the caller binds
+	PK    []int `json:"pk"`    // partition-key indexes (may point outside the columns)
+}
+
+func TestVxC05PKIndexes(t *testing.T) {
+	vx.Check(t, vx.Prop{ID: "C05", Part: "TestVxC05PKIndexes",
+		Rule: "a protocol 4/5 session with a token-aware policy prepares a statement; the node's PREPARED response declares 0..4 bind columns and 0..4 partition-key indexes drawn from in range, equal to the column count, 255, 32767 and 65535 (duplicates allowed); the caller binds 0..5 values and calls GetRoutingKey and Exec; oracle: both return (a value or an error) within the watchdog, nothing panics; non-trivial = an index outside the declared columns; distinct by the case",
+		Draw: func(t *rapid.T) interface{} {
+			c := &vxC05PKCase{Proto: rapid.IntRange(4, 5).Draw(t, "proto"), NCols: rapid.IntRange(0, 4).Draw(t, "ncols"), NVals: rapid.IntRange(0, 5).Draw(t, "nvals")}
+			for i, n := 0, rapid.IntRange(0, 4).Draw(t, "npk"); i < n; i++ {
+				c.PK = append(c.PK, rapid.SampledFrom([]int{0, 1, 2, 3, c.NCols, c.NCols + 1, 255, 32767, 65535}).Draw(t, "pk"))
+			}
+			if rapid.Bool().Draw(t, "same") {
+				c.NVals = c.NCols
+			}
+			return c
+		},
+		New: func() interface{} { return &vxC05PKCase{} },
+		Run: func(ci interface{}, k *vstats.Case) error {
+			c := ci.(*vxC05PKCase)
+			if c.Proto < 4 || c.Proto > 5 || c.NCols < 0 || c.NCols > 8 || c.NVals < 0 || c.NVals > 8 || len(c.PK) > 8 {
+				return nil
+			}
+			outside := false
+			for _, p := range c.PK {
+				if p < 0 || p > 65535 {
+					return nil
+				}
+				outside = outside || p >= c.NCols
+			}
+			if outside {
+				k.NonTrivial()
+				k.Class("index outside the columns")
+			}
+			cols := []cqlspec.Column{}
+			for i := 0; i < c.NCols; i++ {
+				cols = append(cols, cqlspec.Column{Keyspace: "ks1", Table: "t", Name: "c" + itoa(i), Type: cqlspec.Scalar(cqlspec.Int)})
+			}
+			cl := vnode.NewCluster(vxSpecs(2, 2))
+			for _, n := range cl.Nodes() {
+				n.Handler = func(rc *vnode.ReqCtx) {
+					if rc.Req.Kind == "PREPARE" {
+						rc.Reply(&cqlspec.Response{Kind: "PREPARED", PreparedIDHex: "ab", Meta: &cqlspec.Metadata{Columns: cols, PKIndexes: c.PK, GlobalSpec: true, Keyspace: "ks1", Table: "t"},
+							ResultMeta: &cqlspec.Metadata{Columns: []cqlspec.Column{}}})
+						return
+					}
+					rc.Reply(vxVoid())
+				}
+			}
+			done := make(chan string, 1)
+			go func() {
+				defer func() {
+					if r := recover(); r != nil {
+						done <- fmt.Sprintf("panic in the caller's goroutine: %v", r)
+					}
+				}()
+				s, err := vxClusterConfig(cl, c.Proto, func(cfg *ClusterConfig) {
+					cfg.PoolConfig.HostSelectionPolicy = TokenAwareHostPolicy(RoundRobinHostPolicy())
+					cfg.Timeout = 700 * time.Millisecond
+				}).CreateSession()
+				if err != nil {
+					done <- ""
+					return
+				}
+				defer s.Close()
+				vals := make([]interface{}, c.NVals)
+				for i := range vals {
+					vals[i] = i + 1
+				}
+				q := s.Query("SELECT a FROM t WHERE k = ?", vals...)
+				_, e1 := q.GetRoutingKey()
+				e2 := q.Exec()
+				k.Class(fmt.Sprintf("GetRoutingKey:%v Exec:%v", e1 == nil, e2 == nil))
+				done <- ""
+			}()
+			select {
+			case msg := <-done:
+				if msg != "" {
+					return fmt.Errorf("PREPARED with %d bind columns and partition-key indexes %v, %d values bound: %s", c.NCols, c.PK, c.NVals, msg)
+				}
+				return nil
+			case <-time.After(20 * time.Second):
+				return fmt.Errorf("the calls did not return within 20 s:\n%s", vxGoroutineDump())
+			}
+		}})
+}
